@@ -31,6 +31,9 @@ def generate(rng, tier, n=None, **kw):
     # duplicates and ill-typed values in every position - each answered with one status whose class is judged
     from . import c09
     out += [("route%d" % i, c09.routing_scenario(rng)) for i in range(50 if tier == "quick" else 1000)]
+    # the client streams (kuksa.val.v1 StreamedUpdate, sdv StreamDatapoints) incl. a signal registered while the
+    # streams are open
+    out += [("cs%d" % i, H.client_stream_scenario(rng)) for i in range(40 if tier == "quick" else 800)]
     return out
 
 
